@@ -5,6 +5,21 @@ import "time"
 var _ = time.Second
 
 func init() {
+	reg("C16", propCfg{
+		index: 16,
+		rule: "cases are configurations carrying any mix of {dangling parameters, dangling services, cycles, scope conflicts, grammar/token defects, none}: all 32 subsets on a fixed base and rapid-generated valid configurations with 0..4 injected defects; each case is run under all four combinations of --ignore-missing-params / --ignore-missing-services. Oracle: (model) the reference verdict and fact set under each flag combination; (metamorphic) the parsed fact set under flags F equals the unflagged fact set with exactly the ignored classes removed, cycle lines unchanged, accepted iff nothing remains, the step table marks exactly the switched-off rules as ignored, and an accepted configuration yields byte-identical output under all four. Non-trivial = an ignorable defect together with a defect of another class, or an accepted configuration compared across all four combinations; distinct by hash of (configuration, style)",
+		assume: []string{"diagnostics are compared as fact sets parsed from the numbered list"},
+	})
+	reg("C07", propCfg{
+		index: 7,
+		rule: "cases are explicit dependency structures rendered as configurations: exhaustively all 512 reference structures on 3 parameters, all structures of <= 4 @service edges on 3 services, the bit-vector space of 2 services x 2 tags x 1..2 decorators over {@service, carries tag, !tagged, decorator-on-tag, decorator->service/tag} (complete in the thorough tier, every 37th in quick), and rapid-generated sparse graphs (<= 8 services, 4 tags, 3 decorators, 6 parameters) with self-loops and overlapping cycles. Oracle: own graph + Tarjan SCC: rejected in the cycle step iff cyclic; every reported line is a closed walk along reference edges; the union of nodes on reported cycles equals the nodes lying on a cycle; accepted containers are compiled and probed (CircularDeps() nil, every GetParam/Get terminates without error). Non-trivial = cyclic, or acyclic with at least one tag/decorator edge; distinct by hash of the structure",
+		assume: []string{"structures with a strongly connected component of more than 7 nodes and more than 24 internal edges are skipped and counted (cycle enumeration is exponential; the property excludes them)"},
+	})
+	reg("C06", propCfg{
+		index: 6,
+		rule: "cases are configurations with references removed, renamed or added at every position a reference can occur in (parameter chunk single / multi-chunk / after %%, constructor argument, call argument, field value, decorator argument), todo parameters and services as targets: an exhaustive position x reference-text matrix on a fixed base plus rapid-generated valid configurations with 1..4 random mutations. The verdict and the set of (referrer, missing name) facts parsed from the report are compared with the reference model; accepted configurations are compiled and probed (no Get/GetParam error may say 'does not exist'). Non-trivial = at least one dangling reference, or a reference to a todo target; distinct by hash of (configuration, style)",
+		assume: []string{"diagnostics are compared as sets of (class, referrer, name) facts, wording is not compared"},
+	})
 	reg("C01", propCfg{
 		index: 1,
 		rule: "cases are configurations valid by construction over a fixture universe in which every referenced Go symbol exists: (a) rapid-generated batches (creation method x value/type forms x getters x scopes x tags/calls/withers/fields/decorators x parameter literal types and pattern shapes x import spellings and alias tables x 1..3 input files x {normal, --stub}); (b) a feature lattice of hand-minimal configurations, every single feature in both modes and feature pairs. Each accepted output is checked for gofmt-stability, complete parse, header and build constraint, compiled with the real Go toolchain against the pinned runtime inside the fixture module, linked into a probe and initialised. Non-trivial = at least one service and at least three distinct feature labels; distinct by hash of (files, style, mode)",
